@@ -109,7 +109,10 @@ pub fn gen_store(rng: &mut Rng) -> BTreeMap<String, Dict> {
     for i in 0..k {
         let id = format!("r{i}");
         let mut d = Dict::new();
-        d.insert("id".into(), Value::make_ref(&id));
+        // most records know their own id; some do not (the resolver finds them by ref value anyway)
+        if !rng.chance(1, 5) {
+            d.insert("id".into(), Value::make_ref(&id));
+        }
         for m in ["site", "equip", "point", "ahu", "space"] {
             if rng.chance(1, 3) {
                 d.insert(m.into(), Value::Marker);
@@ -129,6 +132,12 @@ pub fn gen_store(rng: &mut Rng) -> BTreeMap<String, Dict> {
         }
         if rng.chance(1, 4) {
             d.insert("c".into(), Value::make_list(vec![Value::make_ref("r1"), Value::make_number(2.0), Value::make_ref("r0")]));
+        }
+        if rng.chance(1, 3) {
+            // a ref tag that holds a list of refs (cycles may run through such lists only)
+            let k = rng.range(1, 3);
+            let refs: Vec<Value> = (0..k).map(|_| Value::make_ref(&format!("r{}", rng.usize(K_RECORDS)))).collect();
+            d.insert(rng.pick_str(REF_TAGS).to_string(), Value::make_list(refs));
         }
         if rng.chance(1, 4) {
             let mut inner = Dict::new();
@@ -592,6 +601,10 @@ impl Engine for C09 {
             units.push(UnitSpec { id, name: format!("boundary:{b}"), isolated: false, exhaustive: true });
             id += 1;
         }
+        for part in 0..8 {
+            units.push(UnitSpec { id, name: format!("fields:{part}"), isolated: false, exhaustive: true });
+            id += 1;
+        }
         // two-fault enumeration for the short base filters
         let max2 = match self.ctx.tier {
             Tier::Quick => 12,
@@ -613,6 +626,21 @@ impl Engine for C09 {
         }
         if unit.name == "ladder" {
             return Box::new(self.ladder().into_iter());
+        }
+        if let Some(part) = unit.name.strip_prefix("fields:") {
+            // every value of the two-digit fields of date / time / timestamp literals in a comparison
+            let part: usize = part.parse().unwrap_or(0);
+            let uname = unit.name.clone();
+            return Box::new(gen_zinc::field_sweep().into_iter().enumerate().filter(move |(i, _)| i % 8 == part).flat_map(move |(_, lit)| {
+                let text = format!("ts >= {lit} and x");
+                let uname = uname.clone();
+                ["filter-parse", "filter-parse-capi"].into_iter().map(move |sink| {
+                    let mut c = Case::new("C09", sink, text.as_bytes());
+                    c.extra.insert("mutation".into(), "field-value".into());
+                    c.origin = format!("{uname} {lit}");
+                    c
+                })
+            }));
         }
         if let Some(b) = unit.name.strip_prefix("boundary:") {
             // every token kind straddling a buffer-size boundary, a little text after it
